@@ -4,8 +4,9 @@ Property theorems (DESIGN.md §6 C02).  Models: `FfcxModel/Geometry/RefCell.lean
 entity selection, macro layout), data `FfcxModel/Generated/RefCells.lean` (regenerated from /repo
 on every run by `harness/extract_geom.py`).  Helper lemmas: `FfcxProofs/Lemmas/Geom.lean`.
 
-Theorems: `facet_map_vertices`, `facet_map_affine`, `refgeom_tables`, `refgeom_access`,
-`entity_by_restriction`, `macro_layout`.
+Theorems: `facet_map_vertices`, `facet_map_affine`, `refgeom_tables`, `refgeom_access_partial`
+(+ `refgeom_access_counterexample`, a real defect recorded as known finding
+`refgeom:reference_facet_edge_vectors:ignores-facet`), `entity_by_restriction`, `macro_layout`.
 `table_access_spec` (value read = basis function at the entity map of the permuted point) is in
 `FfcxProofs/C03.lean`, next to the permutation rows it depends on.
 -/
@@ -120,6 +121,10 @@ example : mapFacetPoints prismCell 3 [[1/4, 1/2]] = [[3/4, 1/4, 1/2]] := by deci
 
 def getRow (t : Option (List (List Rat))) (i : Nat) : List Rat := (t.getD []).getD i []
 
+/-- flat row of `reference_facet_edge_vectors` holding edge `k` of facet `f` -/
+def rfevRow (c : RefCellData) (f k : Nat) : Nat :=
+  ((List.range f).map (fun g => (facetCell c g).edges.length)).foldl (· + ·) 0 + k
+
 /-- **`refgeom_tables`.** For every cell type, the tables *emitted* by
 `ffcx/codegeneration/geometry.py` agree with the reference geometry/topology:
 1. `reference_normals[f]` is orthogonal to the facet's edge vectors `vₖ−v₀`, outward
@@ -128,8 +133,8 @@ def getRow (t : Option (List (List Rat))) (i : Nat) : List Rat := (t.getD []).ge
 4. `reference_cell_volume` is within `1e-15` (relative) of the volume computed from the vertices,
    and so is `basix.cell.volume`; `reference_facet_volume` is the volume of the (common) facet cell;
 5. `reference_cell_edge_vectors[e] = v_{e₁} − v_{e₀}`;
-6. `reference_facet_edge_vectors[f][k] = v_{f[j]} − v_{f[i]}` for edge `k = (i,j)` of the facet cell
-   (emitted for the cells with one facet type: tetrahedron, hexahedron);
+6. `reference_facet_edge_vectors` holds, flattened facet by facet, the vectors
+   `v_{f[j]} − v_{f[i]}` for the edges `(i,j)` of the facet cell;
 7. `facet_edge_vertices[f][k] = [f[i], f[j]]`;
 8. `facet_orientation[f] = 1` iff the vertex-order normal of the facet points inward. -/
 theorem refgeom_tables :
@@ -165,14 +170,13 @@ theorem refgeom_tables :
     (∀ c ∈ cells, c.referenceCellEdgeVectors.isSome ∧ ∀ e ∈ List.range c.edges.length,
       let ev := c.edges.getD e []
       getRow c.referenceCellEdgeVectors e = vsub (c.vertex (ev.getD 1 0)) (c.vertex (ev.getD 0 0))) ∧
-    -- 6. reference_facet_edge_vectors [facet][edge][component]
-    (∀ c ∈ cells3, ∀ t, c.referenceFacetEdgeVectors = some t → ∀ f ∈ List.range c.facets.length,
+    -- 6. reference_facet_edge_vectors (flattened)
+    (∀ c ∈ cells3, c.referenceFacetEdgeVectors.isSome ∧ ∀ f ∈ List.range c.facets.length,
       ∀ k ∈ List.range (facetCell c f).edges.length,
         let fv := c.facets.getD f []
         let ed := (facetCell c f).edges.getD k []
-        (t.getD f []).getD k [] =
+        getRow c.referenceFacetEdgeVectors (rfevRow c f k) =
           vsub (c.vertex (fv.getD (ed.getD 1 0) 0)) (c.vertex (fv.getD (ed.getD 0 0) 0))) ∧
-    (tetrahedronCell.referenceFacetEdgeVectors.isSome ∧ hexahedronCell.referenceFacetEdgeVectors.isSome) ∧
     -- 7. facet_edge_vertices
     (∀ c ∈ cells3, ∀ t, c.facetEdgeVertices = some t → ∀ f ∈ List.range c.facets.length,
       ∀ k ∈ List.range (facetCell c f).edges.length,
@@ -198,20 +202,30 @@ def perEntityTables : List String :=
   ["reference_normals", "cell_facet_jacobian", "cell_ridge_jacobian", "facet_orientation",
    "reference_facet_edge_vectors"]
 
-/-- **`refgeom_access`.** Every per-entity geometry table that `access.py` accepts for a cell type
-(reference normals, facet/ridge Jacobians, facet orientations, reference facet edge vectors) is
-subscripted by `entity_local_index[r]` (with `entity_by_restriction`: the row of the entity being
-integrated over, on the side of the restriction); and the handlers for the tables the kernels of
-the search use are accepted where expected (non-vacuity). -/
-theorem refgeom_access :
-    (∀ c ∈ cells, ∀ a ∈ c.access, a.accepted = true → a.table ∈ perEntityTables →
-      a.usesEntity = true) ∧
-    (accessOf tetrahedronCell "reference_facet_edge_vectors").map
-      (fun a => (a.accepted, a.usesEntity, a.rank)) = some (true, true, 3) ∧
-    (accessOf hexahedronCell "reference_facet_edge_vectors").map
-      (fun a => (a.accepted, a.usesEntity, a.rank)) = some (true, true, 3) ∧
-    (accessOf triangleCell "reference_normals").map
-      (fun a => (a.accepted, a.usesEntity, a.rank)) = some (true, true, 2) := by
+/-- **`refgeom_access_partial`** (the full statement — *every* per-entity geometry table that
+`access.py` accepts for a cell type is subscripted by `entity_local_index[r]` — fails for
+`reference_facet_edge_vectors`, see `refgeom_access_counterexample`; it is proved for the other
+per-entity tables: normals, facet/ridge Jacobians, orientations). -/
+theorem refgeom_access_partial :
+    ∀ c ∈ cells, ∀ a ∈ c.access, a.accepted = true → a.table ∈ perEntityTables →
+      a.table ≠ "reference_facet_edge_vectors" → a.usesEntity = true := by
+  decide +kernel
+
+/-- **Counterexample (real defect of the pinned tree, known finding
+`refgeom:reference_facet_edge_vectors:ignores-facet`).** `access.reference_facet_edge_vectors`
+accepts the tetrahedron and the hexahedron, returns `table[component[0]][component[1]]` *without*
+the facet index, while `geometry.reference_facet_edge_vectors` emits the vectors of all facets
+flattened facet by facet: for facet 1, edge 1 of the tetrahedron the row read (`1`) is not the row
+holding that edge (`rfevRow = 4`) and the two rows differ — UFL's `ReferenceFacetEdgeVectors`
+("for each edge in current facet") evaluates to facet 0's edges on every facet. -/
+theorem refgeom_access_counterexample :
+    (accessOf tetrahedronCell "reference_facet_edge_vectors").map (fun a => (a.accepted, a.usesEntity, a.rank))
+      = some (true, false, 2) ∧
+    rfevRow tetrahedronCell 1 1 = 4 ∧
+    getRow tetrahedronCell.referenceFacetEdgeVectors 1 ≠
+      getRow tetrahedronCell.referenceFacetEdgeVectors (rfevRow tetrahedronCell 1 1) ∧
+    (accessOf hexahedronCell "reference_facet_edge_vectors").map (fun a => (a.accepted, a.usesEntity))
+      = some (true, false) := by
   decide +kernel
 
 /-! ## Entity selection -/
